@@ -4027,8 +4027,8 @@ func (ce *callEngine) callNativeFunc(ctx context.Context, m *wasm.ModuleInstance
 			if offset%4 != 0 {
 				panic(wasmruntime.ErrRuntimeUnalignedAtomic)
 			}
-			// Just a bounds check
-			if offset >= memoryInst.Size() {
+			// Just a bounds check (note: Size() wraps to zero for a 4GiB memory)
+			if uint64(offset) >= uint64(len(memoryInst.Buffer)) {
 				panic(wasmruntime.ErrRuntimeOutOfBoundsMemoryAccess)
 			}
 			res := memoryInst.Notify(offset, uint32(count))
